@@ -78,6 +78,17 @@ func splitDFile(r *Rand, d *dFile) *c04Split {
 			}
 			b := r.Intn(k)
 			blocks[b].Types = append(blocks[b].Types, t)
+			if (t.Kind == "type" || t.Kind == "table") && len(t.Fields) > 0 && r.Chance(1, 4) {
+				// one more declaration of the type that says nothing (`!type T: ...`), in any block: before or
+				// after the full one, it neither adds nor takes away
+				ph := dTypeDecl{Name: t.Name, Kind: t.Kind, Attrs: emptyAttrs(), Fields: []dField{}, Items: []dEnumItem{}, Members: []dType{}, Placeholder: true}
+				pb := r.Intn(k)
+				if pb == b && r.Bool() {
+					blocks[pb].Types = append([]dTypeDecl{ph}, blocks[pb].Types...)
+				} else {
+					blocks[pb].Types = append(blocks[pb].Types, ph)
+				}
+			}
 		}
 		for _, e := range a.Eps {
 			b := r.Intn(k)
